@@ -131,7 +131,7 @@ func runAdversary(c *drv.Ctx) error {
 }
 
 func runPause(c *drv.Ctx) error {
-	w := cw.New(c.Out, pauseHeader, "pcase", []cw.Check{{Name: "MISMATCH", Fn: "pcase_ok"}, {Name: "MON06", Fn: "pcase_mon"}})
+	w := cw.New(c.Out, pauseHeader, "pcase", []cw.Check{{Name: "MISMATCH", Fn: "pcase_ok"}, {Name: "MON06", Fn: "pcase_mon"}, {Name: "MON06G", Fn: "pcase_mon_guarded"}})
 	w.ShardSize = 120
 	w.Stats.Rule = "two real GraphSync instances over the mocknet; generated DAG/selector; the responder holds the root and a random part of the DAG, the requestor a random part of that (outside C02-F1/F2); the requestor pauses its request from the incoming-block hook at a block index drawn from 1..blocks-it-will-load (1/8: no pause) and is resumed after a marker request drained the cancelled response's in-flight messages (3/4) or at once (1/4); " +
 		"monitor: delivered (path,node) sequence, missing-block errors, other errors and final store equal the reference ref(plan,L,R), i.e. the unpaused outcome; correspondence: the model with the pause, under three delivery schedules (how much of the response was queued when the pause took effect is not observable). non-trivial = paused after going online; distinct = distinct terms"
